@@ -74,7 +74,7 @@ def reference(labels, acc):
 def check_history(hist, sets):
     """Judge the last op of hist. -> ((key, reason)|None, (force, nodes)|None)"""
     try:
-        with horizon(20.0):
+        with horizon(120.0):
             f, nodes, acc = build(hist, sets)
             if hist and hist[-1][0] == "C" and nodes:
                 ref = reference([(n.idealPos, n.width) for n in nodes], acc)
@@ -173,7 +173,7 @@ def run_shard(shard):
         for ci in cis:
             opts = layout.config_for(ci, labels, nconf)
             try:
-                with horizon(20.0):
+                with horizon(120.0):
                     base = layout_map(labels, opts, None)
                     for perm in perms:
                         got = layout_map(labels, opts, perm)
